@@ -67,6 +67,7 @@ func runSeqEnum(seed uint64, index int64, o hx.Opts) *hx.Result {
 		cl := &client{}
 		// every length 1..depth: sequences of length < depth are prefixes, so checking after each step covers them
 		for q := index % shards; q < total; q += shards {
+			rt.ResetSpin()
 			ns := nbtns.NewNetBIOSNameServer(q%2 == 0)
 			cur := []*State{mk(rt.Now(), nil)}
 			cl.snaps = cl.snaps[:0]
